@@ -53,15 +53,22 @@ func ccGid() int {
 
 func ccMakeObject(w *apiWorld, name, content string) {
 	w.call("New", name, content)
-	if content == "usesT" {
+	if content == "usesT" || content == "rich" {
 		w.call("New", name+"-t", "typeT")
 		w.call("AddType", name, name+"-t")
+	}
+	if content == "rich" {
+		w.call("New", name+"-u", "typeU")
+		w.call("AddType", name, name+"-u")
 	}
 }
 
 func ccRegs(content string) []string {
 	if content == "usesT" {
 		return []string{"typeT"}
+	}
+	if content == "rich" {
+		return []string{"typeT", "typeU"}
 	}
 	return nil
 }
@@ -161,7 +168,7 @@ var c11Once sync.Once
 
 func c11Init() {
 	c11Once.Do(func() {
-		apiPrecompute([]string{"nested", "deeper", "usesT", "typeT", "shallow"}, 1)
+		apiPrecompute([]string{"nested", "deeper", "usesT", "typeT", "shallow", "orset"}, 1)
 		pools.gid = ccGid
 		pools.install()
 	})
